@@ -112,7 +112,7 @@ Proof.
   destruct (parsed_inv m pos lim p H Hl Hw) as [n [Vn [_ [Hpl Hf]]]].
   clear H. revert p n Vn Hpl Hf. induction k as [|k IH]; intros p n Vn Hpl Hf.
   - exists n, p. split; [reflexivity|]. split; [exact Vn|]. apply denotes_parsed; assumption.
-  - cbn [parent_n]. unfold m_parent. rewrite Hk. destruct n as [|l n'].
+  - unfold parent_n. cbn [step_n]. fold parent_n. unfold m_parent. rewrite Hk. destruct n as [|l n'].
     + cbn [app] in Hpl. apply plabels_root_len in Hpl as Hone.
       unfold parent_gen. rewrite Hone. cbn [N.eqb Pos.eqb bind].
       exists [], p. split; [reflexivity|]. split; [exact Vn|]. apply denotes_parsed; assumption.
